@@ -46,6 +46,13 @@ def rule_seq(prog, rep):
                 is_async = re.search(ASYNC_NS, n) or re.search(r" as (futures|futures_core|futures_util|core::future|std::future)", n) or n.split("::")[-1].startswith("poll")
                 if not is_async:
                     continue
+                if re.search(r"FutureExt::now_or_never$", n) and not re.search(r"resolvers::Execution::<'a>::execute_sync$", fn.name):
+                    # polling once and dropping the future when it is pending is schedule-dependent
+                    # by construction; the only legitimate user is execute_sync, which drives a
+                    # future that contains no pending resolver at all
+                    rep.finding("C27.SEQ", fn.name, "now-or-never",
+                                "`now_or_never()` outside execute_sync: a future that is pending on its first poll is dropped (what the resolver did before suspending is lost, or repeated if the call is made again), so the response and the resolver call order depend on the schedule", c.loc())
+                    continue
                 if any(re.search(a, n) for a in ALLOWED):
                     seen.setdefault(n, 0)
                     seen[n] += 1
